@@ -191,7 +191,7 @@ TEnd ==
             /\ viol' = viol \o (IF Ev.started THEN Chk(G_C08_SingleCommandPerNode(cands2, others), "G_C08_SingleCommandPerNode",
                                                        "accepted-while-in-progress") ELSE <<>>)
        ELSE \* a pass of the disruption queue over command k
-            LET cause == IF \E r \in c.repl : ~Claim(st, r).exists THEN "vanish"
+            LET cause == IF \E r \in c.repl : ~Claim(st, r).exists /\ r \notin st.everInit THEN "vanish"
                          ELSE IF Ev.t - c.startedAt > st.cfg.timeoutSec THEN "timeout" ELSE "other"
                 c2 == IF Ev.outcome = "failed" THEN SetFailure([c EXCEPT !.state = "failed"], cause)
                       ELSE IF Ev.outcome = "succeeded" THEN [c EXCEPT !.state = "succeeded"] ELSE c
